@@ -301,6 +301,7 @@ def d3(ctx, prog, ci):
         if f is None:
             raise AnalysisError(f'MIA {name} not found')
         zero_free = set()
+        repl = {}           # array name -> value its zeros were replaced by
         for st in f.node.body:
             # uses first (right-hand sides are evaluated before the store)
             for n in ast.walk(st):
@@ -311,6 +312,9 @@ def d3(ctx, prog, ci):
                     if isinstance(a, ast.Name):
                         ctx.check(a.id in zero_free, 'C13-D3', key, f'`{a.id}` can still contain zeros when its logarithm is taken: 0 * log 0 becomes NaN instead of 0',
                                   f'zeros of `{a.id}` were replaced before the logarithm', f.where(n))
+                        if a.id in zero_free:
+                            ctx.check(repl.get(a.id) == 1, 'C13-D3', key + ' neutral value', f'the zeros of `{a.id}` are replaced by {repl.get(a.id)}: an empty cell then contributes '
+                                      f'{repl.get(a.id)} * log({repl.get(a.id)}) instead of 0 (only 1 makes x log x vanish)', f'zeros of `{a.id}` replaced by 1 (1 log 1 = 0)', f.where(n))
                     else:
                         ctx.undecided('C13-D3', key, 'logarithm of a compound expression: zero replacement cannot be tracked', f.where(n))
                 if name == '_compute_pdf' and isinstance(n, ast.BinOp) and isinstance(n.op, ast.Div) and isinstance(n.right, ast.Name):
@@ -324,6 +328,7 @@ def d3(ctx, prog, ci):
                 elif isinstance(t, ast.Subscript) and isinstance(t.value, ast.Name) and isinstance(t.slice, ast.Compare) \
                         and norm(t.slice).replace(' ', '') == f'{t.value.id}==0' and const_value(st.value) not in (None, 0):
                     zero_free.add(t.value.id)
+                    repl[t.value.id] = const_value(st.value)
             elif isinstance(st, ast.AugAssign) and isinstance(st.target, ast.Name):
                 zero_free.discard(st.target.id)
     return n_log
@@ -411,6 +416,59 @@ def d6(ctx, prog, ci):
     return n
 
 
+def d7(ctx, prog, ci):
+    """the statistic itself, by algebraic value numbering over tensors (sa.symtensor): with symbolic histogram cells a[s, b, p, w]
+    (1 sample, 2 bins, 3 classes, 2 words) what `_compute` returns must be, for every word and sample, the same function of the
+    cells as   sum_p (n_p / N) [ sum_b f(a_bp / n_p) - sum_b f(a_b. / N) ]   with f(x) = x log x, n_p = sum_b a_bp, N = sum a -
+    i.e. H(B) - H(B|V) in nats - `log` being an uninterpreted atom (two logs are the same atom iff their arguments are equal
+    rational functions).  The layout (W, S) of the result is part of the comparison."""
+    from .. import symtensor, ratfun
+    f = prog.resolve_method(ci, '_compute')
+    key = f'{f.key}::formula'
+    if symtensor.np is None:
+        ctx.undecided('C13-D7', key, 'numpy is not available to the analysis interpreter', f.where())
+        return 0
+    np = symtensor.np
+    S, B, P, W = (1, 2, 2, 2) if ctx.tier != 'thorough' else (1, 2, 3, 2)
+    ratfun.Q.atoms = []
+    a = np.empty((S, B, P, W), dtype=object)
+    for s_ in range(S):
+        for b in range(B):
+            for p in range(P):
+                for w in range(W):
+                    a[s_, b, p, w] = ratfun.Q.sym(f'a{s_}{b}{p}{w}')
+    try:
+        te = symtensor.TensorEval(prog, ci, {'self.accumulators': a})
+        got = te.run(f, {})
+        if not isinstance(got, np.ndarray) or got.shape != (W, S):
+            ctx.fail('C13-D7', key, f'_compute returns an array of shape {getattr(got, "shape", None)} for {W} words and {S} sample(s), expected (words, samples)', f.where())
+            return 1
+        bad = None
+        for w in range(W):
+            for s_ in range(S):
+                cells = a[s_, :, :, w]
+                N = cells.sum()
+                want = ratfun.Q.const(0)
+                pb = [cells[b, :].sum() / N for b in range(B)]
+                hb = ratfun.Q.const(0)
+                for b in range(B):
+                    hb = hb + pb[b] * pb[b].log()
+                for p in range(P):
+                    n_p = cells[:, p].sum()
+                    inner = ratfun.Q.const(0)
+                    for b in range(B):
+                        x = cells[b, p] / n_p
+                        inner = inner + x * x.log()
+                    want = want + (n_p / N) * (inner - hb)
+                if not got[w, s_].same(want):
+                    bad = (w, s_)
+        ctx.check(bad is None, 'C13-D7', key, f'what _compute returns for word {bad[0] if bad else ""}, sample {bad[1] if bad else ""} is not H(B) - H(B|V) = sum_p (n_p/N) [sum_b f(a_bp/n_p) - sum_b f(a_b/N)], '
+                  f'f(x) = x log x, as a function of the histogram cells', 'the result is H(B) - H(B|V) in nats for every word and sample (normal forms over symbolic cells, log as an uninterpreted atom)', f.where())
+    except ratfun.Unknown as e:
+        ctx.undecided('C13-D7', key, f'formula not derivable: {e}', f.where())
+    return 1
+
+
 def run(ctx, prog):
     from .. import universe as _uni0
     _uni0.inline_base_entry_points(ctx, prog)
@@ -423,6 +481,8 @@ def run(ctx, prog):
     n = d3(ctx, prog, ci)
     ctx.rule('C13-D5', 'the kernel bins the samples of the batch as given: no narrowing cast between _accumulate and the comparison with the edges')
     d5(ctx, prog, ci)
+    ctx.rule('C13-D7', 'algebraic value numbering over tensors: _compute returns H(B) - H(B|V) (nats) as a function of symbolic histogram cells, log uninterpreted, layout (words, samples) included')
+    ctx.floor('MIA statistic compared with its definition', d7(ctx, prog, ci), 1)
     ctx.rule('C13-D6', 'reductions of the histogram counts run in numpy\'s default (64-bit) accumulator or an explicitly wide type, never in the configurable accumulator precision')
     ctx.floor('count reductions judged (MIA)', d6(ctx, prog, ci), 3)
     ctx.rule('C13-D4', 'axis-label typing of the MIA kernel, _compute_pdf and _compute: every broadcast aligned, (S,B,P,W) reduced to the documented (W,S)')
